@@ -180,7 +180,7 @@ Definition sp_str (p : spath) : string :=
   dec (sp_rank p) +++ "|" +++ sp_key p +++ "|" +++ dec (sp_line p) +++ "|" +++
   (if sp_root p then "true" else "false") +++ "|" +++ sp_text p.
 
-(* Database::global_search("") on the threaded state: Graph::search_paths (graph.rs:75-97), every
+(* Database::global_search("") on the threaded state: Graph::search_paths (graph.rs:74-98), every
    fuzzy score 0, the comparator of database.rs:57-69, the first 100 *)
 Definition model_search (gs : gstate) : res (list spath) :=
   do sps <- search_paths true gs;
@@ -252,49 +252,16 @@ Definition hist_patch_wf (c : histcase) : list N := nodup N.eq_dec (patch_props 
 Definition run_C20 (c : histcase) : verdict :=
   V (hist_corr c ++ hist_patch_corr c) (hist_wf c ++ hist_patch_wf c) (hist_classes c) (hist_nontrivial c).
 
-(* known-finding class 3 of C04 (F-SEARCHTIE, DESIGN F15): at some state of the history two listed
-   search paths TIE under both comparators - Graph::search_paths orders by node_rank (descending),
-   then key (graph.rs:88-95); Database::global_search("") by node_rank (descending), then length of
-   the search text (database.rs:59-63); both sorts are stable - so the two entries stay in the order of
-   Graph::paths(), which is the order of their node-id vectors (path.rs:101).  When the first ids in
-   which the two paths differ belong to DIFFERENT notes, that order is the order in which those notes
-   were last built: by key in a fresh import, by time of the last update in a running server.  (Ids of
-   one note are handed out in document order by every build, and a path that is a prefix of the other
-   comes first everywhere: such ties are the same in every history and are not in the class.)
-   The class is decided on the model's run of the history (the input texts through Paths.search_paths);
-   two entries that print alike cannot be told apart and do not count. *)
-Fixpoint first_diff (p q : list nat) : option (nat * nat) :=
-  match p, q with
-  | x :: p', y :: q' => if Nat.eqb x y then first_diff p' q' else Some (x, y)
-  | _, _ => None
-  end.
-Definition sp_tie (gs : gstate) (x y : spath) : bool :=
-  Nat.eqb (sp_rank x) (sp_rank y) && String.eqb (sp_key x) (sp_key y) &&
-  Nat.eqb (String.length (sp_text x)) (String.length (sp_text y)) &&
-  negb (String.eqb (sp_str x) (sp_str y)) &&
-  match first_diff (sp_ids x) (sp_ids y) with
-  | Some (a, b) =>
-      match Index.node_key (gr_arena (gs_graph gs)) a, Index.node_key (gr_arena (gs_graph gs)) b with
-      | Ok ka, Ok kb => negb (String.eqb ka kb)
-      | _, _ => false
-      end
-  | None => false
-  end.
-Fixpoint has_tie (gs : gstate) (l : list spath) : bool :=
-  match l with [] => false | x :: r => existsb (sp_tie gs x) r || has_tie gs r end.
-Definition search_tie_state (g : res gstate) : bool :=
-  match g with
-  | Ok gs => match search_paths true gs with Ok l => has_tie gs l | Panic _ => false end
-  | Panic _ => false
-  end.
-Definition hist_search_tie (c : histcase) : bool :=
-  existsb search_tie_state (model_gstates (hist_state0 c) (hc_steps c)).
+(* (formerly known-finding class 3 of C04, F-SEARCHTIE = DESIGN F15, repaired: the comparator of
+   Graph::search_paths goes on after node_rank and key with the search text, the line and the heading
+   texts of the chain (graph.rs:87-96), so two entries that still tie print alike and the order of the
+   search results is the same after every history - SearchTie.search_content, Determinism2.sv_le_antisym.
+   No class is left: a difference in the order of the search results, sub-property 6, is a violation.) *)
+Definition c04_classes (c : histcase) : list N := hist_classes c.
 
-Definition c04_classes (c : histcase) : list N := hist_classes c ++ flag 3 (negb (hist_search_tie c)).
-
-(* which classes can explain the failure of which sub-property of C04: the corrupted arena of
-   F-ITEMLEAD any of them, a search tie only the order of the search results (6) *)
-Definition explain_C04 (p : N) : list N := if N.eqb p 6 then [2%N; 3%N] else [2%N].
+(* which classes can explain the failure of which sub-property of C04 (none is left: class 2, the
+   corrupted arena of F-ITEMLEAD, is repaired as well) *)
+Definition explain_C04 (p : N) : list N := [2%N].
 Definition explain_hist (explain : N -> list N) (fails cls : list N) : list N * list N :=
   let per := map (fun p => (p, filter (fun k => existsb (N.eqb k) cls) (explain p))) fails in
   match filter (fun x => match snd x with [] => true | _ => false end) per with
